@@ -10,6 +10,7 @@ import (
 	"strings"
 
 	"golang.org/x/tools/go/ssa"
+	"golang.org/x/tools/go/ssa/ssautil"
 )
 
 type Roles struct {
@@ -383,6 +384,12 @@ func chanFieldOfD(v ssa.Value, d int) *types.Var {
 				}
 			}
 		}
+		if sites == 0 && fn.Pkg != nil {
+			// a method started with go from another method (`go c.run(c.buf, …)`)
+			for _, g := range pkgFuncs(fn.Pkg) {
+				eachInstr(g, visit)
+			}
+		}
 		return out
 	}
 	return nil
@@ -542,4 +549,26 @@ func fieldReceiving(v ssa.Value, d int) *types.Var {
 		}
 	}
 	return nil
+}
+
+var pkgFuncsMemo = map[*ssa.Package][]*ssa.Function{}
+
+// pkgFuncs: every function and method (and their literals) of a package.
+func pkgFuncs(p *ssa.Package) []*ssa.Function {
+	if fs, ok := pkgFuncsMemo[p]; ok {
+		return fs
+	}
+	var out []*ssa.Function
+	for f := range ssautil.AllFunctions(p.Prog) {
+		top := f
+		for top.Parent() != nil {
+			top = top.Parent()
+		}
+		if top.Pkg == p && len(f.Blocks) > 0 {
+			out = append(out, f)
+		}
+	}
+	sort.Slice(out, func(i, j int) bool { return out[i].String() < out[j].String() })
+	pkgFuncsMemo[p] = out
+	return out
 }
